@@ -123,7 +123,8 @@ Theorem e2e_encoder wo ch total e0 bl e f :
   N.of_nat (length bl) <= FlacCodec.Header.MAX_FRAME_NUMBER + 1 ->
   EP.blocks_samples bl < 2 ^ 64 ->
   FlacCodec.Stream.dec_stream (f_stream f) =
-    Some (conv_si (f_si f), map FlacCodec.Stream.interleave_frame bl, FlacCodec.Stream.EndEof).
+    Some (conv_si (f_si f), map FlacCodec.Stream.interleave_frame bl, FlacCodec.Stream.EndEof) /\
+  FlacCodec.Ast.si_total (conv_si (f_si f)) = EP.blocks_samples bl.
 Proof.
   intros Hnew Hr Hfin Hall Hshape Hlen Hfit.
   destruct (encoder_new_fresh _ _ _ _ Hnew) as (P0 & F0 & K0 & W0 & Sr & Sb & Sc & Smax & Smin & St).
@@ -151,6 +152,7 @@ Proof.
     - destruct (e_samples_written e <? MAX_SAMPLES); [|discriminate].
       destruct (e_samples_written e =? 0); [discriminate|]. injection Htot as <-. cbn. lia. }
   assert (Hrate : FlacCodec.Ast.si_rate (conv_si wsi) = rate) by (unfold conv_si, wsi; cbn; congruence).
+  split; [|exact Htotal].
   rewrite (EP.enc_stream_roundtrip o L (conv_si wsi) rate bps bl 0 bytes (S (length bytes)) 0 [] Hb Hall Hrate);
     [reflexivity|rewrite N.add_0_l; exact Hlen|exact Hshape|right; rewrite N.add_0_l; symmetry; exact Htotal|lia].
 Qed.
@@ -254,7 +256,7 @@ Proof.
   assert (Eb : bps' = bps).
   { unfold signed_bit_count_32 in Hbps'. destruct (_ && _); [injection Hbps' as <-; reflexivity|discriminate]. }
   subst bps'.
-  eapply e2e_encoder; eauto. eapply reach_trans; eauto.
+  eapply (proj1 (e2e_encoder _ _ _ _ _ _ _ He0 (reach_trans _ _ _ _ _ Hb1 Hb2) Hfin Hall Hshape Hlen Hfit)).
 Qed.
 
 End E2E.
